@@ -6,28 +6,31 @@ Local Open Scope N_scope.
 
 (* the property text, for every environment (routing, policy, rest of the driver) *)
 Definition full_statement : Prop :=
-  forall max_completed machine_id send_allowed driver reads_args on_disconnect,
+  forall max_completed machine_id send_allowed driver reads_args on_disconnect activatable granted,
     (forall b c m, Forall dmsg_wf (driver b c m)) ->
     (forall b c, Forall dmsg_wf (on_disconnect b c)) ->
     forall h, Forall event_ok h ->
-      trace_ok true (trace_of max_completed machine_id send_allowed driver reads_args on_disconnect h) /\
-      names_ok (trace_of max_completed machine_id send_allowed driver reads_args on_disconnect h).
+      trace_ok true (trace_of max_completed machine_id send_allowed driver reads_args on_disconnect activatable granted h) /\
+      names_ok (trace_of max_completed machine_id send_allowed driver reads_args on_disconnect activatable granted h).
 
 (* "never reaches any receiver": whoever routing, match rules and monitoring select *)
-Theorem every_delivery max_completed machine_id send_allowed driver reads_args on_disconnect
+Theorem every_delivery max_completed machine_id send_allowed driver reads_args on_disconnect activatable granted
         (route matches : conn -> smsg -> list conn) (bcast : smsg -> list conn) (monitors : list conn) :
   (forall b c m, Forall dmsg_wf (driver b c m)) ->
   (forall b c, Forall dmsg_wf (on_disconnect b c)) ->
   forall h, Forall event_ok h ->
   forall pre o s m' post r,
-    trace_of max_completed machine_id send_allowed driver reads_args on_disconnect h = pre ++ TEmit o s m' :: post ->
+    trace_of max_completed machine_id send_allowed driver reads_args on_disconnect activatable granted h = pre ++ TEmit o s m' :: post ->
     In r (recipients route matches bcast monitors s m') ->
-    emit_ok false (view pre) (last_recv pre) o s m'.
+    emit_ok false (view pre) (last_recv pre) (wrote pre) o s m'.
 Proof. intros H1 H2 h Hh pre o s m' post r E _. eapply sender_partial; eauto. Qed.
 
 (* ---------------- the trivial environment ---------------------------------------------------- *)
+(* service files exist for the names "t.A..."; a RequestName is granted iff nobody owns the name *)
+Definition env_activatable (d : bytes) : bool := is_prefix [116;46;65] d.
+Definition env_granted (b : bus) (c : conn) (name : bytes) : bool := negb (is_owned b name) && negb (is_prefix [58] name).
 Definition env_run (h : list event) : list item :=
-  trace_of 50 [] (fun _ _ _ => true) (fun _ _ _ => []) (fun _ _ _ => false) (fun _ _ => []) h.
+  trace_of 50 [] (fun _ _ _ => true) (fun _ _ _ => []) (fun _ _ _ => false) (fun _ _ => []) env_activatable env_granted h.
 
 (* F13: connect, then (no Hello) a method call to path "/x", member "Foo", no DESTINATION *)
 Definition f13_msg : smsg :=
@@ -53,7 +56,7 @@ Proof. apply error_no_sender. Qed.
 Theorem sender_refuted : ~ full_statement.
 Proof.
   intros H.
-  destruct (H 50 [] (fun _ _ _ => true) (fun _ _ _ => []) (fun _ _ _ => false) (fun _ _ => [])
+  destruct (H 50 [] (fun _ _ _ => true) (fun _ _ _ => []) (fun _ _ _ => false) (fun _ _ => []) env_activatable env_granted
               (fun _ _ _ => Forall_nil _) (fun _ _ => Forall_nil _) f13_hist f13_hist_ok) as [T _].
   exact (T [TConn 0; TRecv 0 f13_msg] OLocal (SSelf 0) _ [] f13_trace).
 Qed.
@@ -100,4 +103,49 @@ Proof. vm_compute. tauto. Qed.
 Lemma demo_placeholder :
   env_run [EConnect 0; ESend 0 forged_msg] =
   [TConn 0; TRecv 0 forged_msg; TEmit (OClient 0) SMonitors (stamp not_active forged_msg); TGone 0].
+Proof. vm_compute. reflexivity. Qed.
+
+(* ---------------- a message kept while a service is started -------------------------------------- *)
+Definition name_act : bytes := [116;46;65;49].   (* "t.A1" *)
+
+(* a method call to the activatable name t.A1 with a forged SENDER and an unknown field *)
+Definition act_msg (serial : N) : smsg :=
+  mkSMsg true 1 0 serial
+    [mkSField 1 (TBasic 111) (VStr 111 [47;120]); mkSField 7 (TBasic 115) (VStr 115 drv_name);
+     mkSField 3 (TBasic 115) (VStr 115 [77]); mkSField 77 (TBasic 117) (VNum 117 5);
+     mkSField 6 (TBasic 115) (VStr 115 name_act)] [] [].
+
+Definition request_msg (serial : N) (name : bytes) : smsg :=
+  mkSMsg true 1 0 serial
+    [mkSField 1 (TBasic 111) (VStr 111 dbus_path); mkSField 2 (TBasic 115) (VStr 115 drv_name);
+     mkSField 3 (TBasic 115) (VStr 115 mem_request); mkSField 6 (TBasic 115) (VStr 115 drv_name);
+     mkSField 8 (TBasic 103) (VStr 103 [115;117])] [115;117] [VStr 115 name; VNum 117 4].
+
+(* clients 1 and 2 write to t.A1; 2 leaves and a new client takes the id 2 (and the name :1.3);
+   client 0 then claims t.A1: only client 1's message is dispatched, under :1.1 *)
+Definition hold_hist : list event :=
+  [EConnect 0; ESend 0 (hello_msg 1); EConnect 1; ESend 1 (hello_msg 1); EConnect 2; ESend 2 (hello_msg 1);
+   ESend 1 (act_msg 7); ESend 2 (act_msg 8); EDisconnect 2; EConnect 2; ESend 2 (hello_msg 1);
+   ESend 0 (request_msg 9 name_act)].
+
+Lemma hold_hist_ok : Forall event_ok hold_hist.
+Proof. repeat constructor. Qed.
+
+Definition released_of (tr : list item) : list (conn * smsg) :=
+  flat_map (fun i => match i with TEmit (OClient c) (SReleased _) m => [(c, m)] | _ => [] end) tr.
+
+Lemma hold_released : released_of (env_run hold_hist) = [(1, stamp name1 (act_msg 7))].
+Proof. vm_compute. reflexivity. Qed.
+
+(* the same start failing instead: the error goes to the writer that is still there, only *)
+Definition fail_hist : list event :=
+  [EConnect 0; ESend 0 (hello_msg 1); EConnect 1; ESend 1 (hello_msg 1); EConnect 2; ESend 2 (hello_msg 1);
+   ESend 1 (act_msg 7); ESend 2 (act_msg 8); EDisconnect 2; EConnect 2; ESend 2 (hello_msg 1);
+   EActFail name_act err_failed].
+
+Lemma fail_bounced :
+  flat_map (fun i => match i with
+                     | TEmit ODriver (STo c) m => if s_type m =? 3 then [(c, get_field (s_fields m) 5, get_field (s_fields m) 6)] else []
+                     | _ => [] end)
+           (env_run fail_hist) = [(1, Some (VNum 117 7), Some (VStr 115 name1))].
 Proof. vm_compute. reflexivity. Qed.
